@@ -10,7 +10,8 @@ Local Open Scope N_scope.
 
 Record conn := mkConn { cn_open : bool; cn_reader : bool; cn_writer : bool; cn_disp : bool }.
 
-Inductive phase := PhIdle | PhDialing | PhAuthing.
+Inductive phase := PhIdle | PhDialing | PhAuthing | PhFinishing.   (* finishing: success, the after-reconnect callback runs,
+                                                                       the single-flight flag is still set *)
 
 Record lstate := mkL {
   l_closed : bool;                (* client closeCh is closed *)
@@ -24,9 +25,10 @@ Record lstate := mkL {
   l_max : N;
   l_late_dials : nat;             (* ghost: dials begun while the client was closed *)
   l_late_frames : nat;            (* ghost: frames written on a connection after Close *)
-  l_late_recon_cb : nat }.        (* ghost: after-reconnect callbacks after Close *)
+  l_late_recon_cb : nat;          (* ghost: after-reconnect callbacks after Close *)
+  l_pending : bool }.             (* a loss of the current connection was reported while the single-flight flag was set *)
 
-Definition l0 (max : N) : lstate := mkL false false 0 0 false PhIdle [mkConn true true true true] 0 max 0 0 0.
+Definition l0 (max : N) : lstate := mkL false false 0 0 false PhIdle [mkConn true true true true] 0 max 0 0 0 false.
 
 Inductive which := GReader | GWriter | GDisp.
 
@@ -35,7 +37,9 @@ Inductive lact :=
 | LConnLost                       (* the current connection fails: conn.Close(err) -> close callback *)
 | LRetryBegin                     (* loop head of the retry loop: closed? budget? else close old conn, sweep, start dialling *)
 | LDialDone (ok : bool)           (* the dial returns *)
-| LAuthDone (ok : bool)           (* auth / session resume on the new connection returns *)
+| LAuthDone (ok : bool)           (* auth / session resume on the new connection returns; on success the callback runs *)
+| LFinish                         (* the loop's goroutine has ended: reconnecting() clears the flag, or starts over when a
+                                     loss of the new connection was reported meanwhile *)
 | LDo                             (* a request is written on the current connection *)
 | LExit (i : nat) (g : which).    (* a goroutine of connection i notices closeCh and exits *)
 
@@ -51,12 +55,18 @@ Fixpoint close_last (l : list conn) : list conn :=
 
 Definition upd (s : lstate) (closed once : bool) (cb rcb : nat) (rec : bool) (ph : phase) (cs : list conn) (cnt : N)
                (ld lf lr : nat) : lstate :=
-  mkL closed once cb rcb rec ph cs cnt (l_max s) ld lf lr.
+  mkL closed once cb rcb rec ph cs cnt (l_max s) ld lf lr (l_pending s).
 
 Definition set_conns (s : lstate) (cs : list conn) : lstate :=
   upd s (l_closed s) (l_once s) (l_cb s) (l_recon_cb s) (l_recovering s) (l_phase s) cs (l_count s) (l_late_dials s) (l_late_frames s) (l_late_recon_cb s).
 Definition set_rec (s : lstate) (rec : bool) (ph : phase) : lstate :=
   upd s (l_closed s) (l_once s) (l_cb s) (l_recon_cb s) rec ph (l_conns s) (l_count s) (l_late_dials s) (l_late_frames s) (l_late_recon_cb s).
+
+Definition set_pending (s : lstate) (p : bool) : lstate :=
+  mkL (l_closed s) (l_once s) (l_cb s) (l_recon_cb s) (l_recovering s) (l_phase s) (l_conns s) (l_count s) (l_max s)
+      (l_late_dials s) (l_late_frames s) (l_late_recon_cb s) p.
+Definition closedb (c : conn) : bool := negb (cn_open c).
+Definition none_open (s : lstate) : bool := forallb closedb (l_conns s).
 
 (* client.Close(err): closeOnce.Do { close(closeCh); conn.Close; onClose(err) } *)
 Definition do_close (s : lstate) : res lstate :=
@@ -84,8 +94,14 @@ Definition lstep (s : lstate) (a : lact) : res lstate :=
   | LConnLost =>
       (* tcpConn/wsConn.Close (once per conn); close callback -> onConnClose: returns when the client is closed,
          otherwise reconnecting(): starts the loop unless one is running *)
+      (* a connection notifies its close once: nothing happens when the current connection is closed already.
+         reconnecting() with the flag set only records the loss (it concerns the connection installed by the running
+         recovery, or one whose replacement is about to be dialled - the record is dropped at the next install) *)
       let s1 := set_conns s (close_last (l_conns s)) in
-      if l_closed s then Ok s1 else Ok (set_rec s1 true (l_phase s1))
+      if none_open s then Ok s
+      else if l_closed s then Ok s1
+      else if l_recovering s then Ok (set_pending s1 true)
+      else Ok (set_rec s1 true (l_phase s1))
   | LRetryBegin =>
       match l_recovering s, l_phase s with
       | true, PhIdle =>
@@ -104,7 +120,7 @@ Definition lstep (s : lstate) (a : lact) : res lstate :=
           else
             let cs := l_conns s ++ [mkConn true true true true] in
             if l_closed s then Ok (set_rec (set_conns s (close_last cs)) true PhIdle)   (* closed meanwhile: give the new conn up *)
-            else Ok (set_rec (set_conns s cs) true PhAuthing)
+            else Ok (set_pending (set_rec (set_conns s cs) true PhAuthing) false)   (* install: earlier loss reports are void *)
       | _ => Ok s
       end
   | LAuthDone ok =>
@@ -112,8 +128,15 @@ Definition lstep (s : lstate) (a : lact) : res lstate :=
       | PhAuthing =>
           if negb ok then Ok (set_rec s true PhIdle)
           else if l_closed s then Ok (set_rec (set_conns s (close_last (l_conns s))) false PhIdle)
-          else Ok (upd s false (l_once s) (l_cb s) (S (l_recon_cb s)) false PhIdle (l_conns s) 0
+          else Ok (upd s false (l_once s) (l_cb s) (S (l_recon_cb s)) true PhFinishing (l_conns s) 0
                        (l_late_dials s) (l_late_frames s) (if l_closed s then S (l_late_recon_cb s) else l_late_recon_cb s))
+      | _ => Ok s
+      end
+  | LFinish =>
+      match l_phase s with
+      | PhFinishing =>
+          if l_pending s && negb (l_closed s) then Ok (set_pending (set_rec s true PhIdle) false)   (* start over *)
+          else Ok (set_pending (set_rec s false PhIdle) false)
       | _ => Ok s
       end
   | LDo =>
